@@ -91,7 +91,9 @@ row("matching_ind_und", "bu", "m", bct.matching_ind_und)
 row("gtom(1)", "bu", "m", lambda W: bct.gtom(W, 1))
 row("gtom(2)", "bu", "m", lambda W: bct.gtom(W, 2))
 row("gtom(3)", "bu", "m", lambda W: bct.gtom(W, 3))
-row("gtom(4)", "bu", "m", lambda W: bct.gtom(W, 4))
+row("gtom(4)", "bu-long", "m", lambda W: bct.gtom(W, 4))
+row("gtom(5)", "bu-long", "m", lambda W: bct.gtom(W, 5))
+row("gtom(6)", "bu-long", "m", lambda W: bct.gtom(W, 6))
 row("edge_nei_overlap_bu", "bu", "m", lambda W: bct.edge_nei_overlap_bu(W)[0])
 row("edge_nei_overlap_bd", "bd", "m", lambda W: bct.edge_nei_overlap_bd(W)[0])
 row("flow_coef_bd", "bd", "vsv", bct.flow_coef_bd)
@@ -113,7 +115,7 @@ TP = {
     "modularity_dir(kci)": ("wd", "s", lambda W, ci: bct.modularity_dir(W, 1, ci)[1]),
     "modularity_und_sign": ("sign", "s", lambda W, ci: bct.modularity_und_sign(W, ci)[1]),
 }
-SLOW = {"rich_club_bu", "rich_club_bd", "rich_club_wu", "rich_club_wd", "gtom(3)", "gtom(4)", "efficiency_wei(local)", "efficiency_wei(original)",
+SLOW = {"rich_club_bu", "rich_club_bd", "rich_club_wu", "rich_club_wd", "efficiency_wei(local)", "efficiency_wei(original)",
         "efficiency_bin(local)", "matching_ind", "erange", "rout_efficiency"}
 # spectral bisection picks an arbitrary eigenvector sign/tie: a partition, when ambiguous, may legitimately differ -> compared only when unique
 SPECTRAL = {"modularity_und(spectral)", "modularity_dir(spectral)"}
@@ -257,6 +259,14 @@ def check(case, ctx):
 def graph(draw, kind, nmax):
     directed = kind in ("bd", "wd", "len-d")
     conn = kind.endswith("conn")
+    if kind == "bu-long":
+        # long sparse graphs (paths, caterpillars, trees + a chord): large diameters, so that multi-round
+        # neighbourhood expansion (gtom with many steps) does not saturate
+        n = draw(st.integers(6, 14))
+        sub = draw(st.sampled_from(["path", "path", "tree", "ring"]))
+        A = gen.path_adj(n) if sub == "path" else gen.ring_adj(n) if sub == "ring" else draw(gen.tree_chords_adj(n, max_chords=1))
+        A = gen.apply_perm(A, draw(gen.perm(n)))
+        return A.astype(float), "long-" + sub
     fam = draw(st.sampled_from(["er", "er", "structured", "structured", "tree", "tree"]))
     if fam == "structured":
         A, sub = draw(gen.structured_adj(3, nmax))
